@@ -1330,9 +1330,15 @@ fn up_frame_greeting(rng: &mut Rng) -> Vec<u8> {
     let n = match rng.below(6) {
         0 => 5usize,
         1 => 300,
-        _ => {
+        2 => {
             let k = rng.range(1, 3);
             (8192 * k as i64 + *rng.pick(&[-1i64, 0, 0, 0, 1])) as usize
+        }
+        _ => {
+            // behind a pump the reply to the upgrading call (27 bytes with its NUL) and the greeting
+            // are ONE burst: make that burst a multiple of the copy buffer
+            let k = rng.range(1, 3);
+            (8192 * k as i64 - 27 + *rng.pick(&[-1i64, 0, 0, 0, 1])) as usize
         }
     };
     let lf_back = *rng.pick(&[0usize, 2, 500, 1022]);
@@ -1340,6 +1346,13 @@ fn up_frame_greeting(rng: &mut Rng) -> Vec<u8> {
 }
 
 fn gen_payload(rng: &mut Rng) -> Vec<Vec<u8>> {
+    if rng.chance(1, 4) {
+        // one chunk of exactly k copy buffers whose echo (every byte + 1) has a line feed in its last KiB
+        let len = 8192 * rng.range(1, 2);
+        let mut c = vec![b'a'; len];
+        c[len - *rng.pick(&[2usize, 500, 1022])] = 9;
+        return vec![c];
+    }
     let n = rng.range(1, 3);
     (0..n)
         .map(|_| {
